@@ -59,8 +59,23 @@ impl<'a> Cur<'a> {
     }
 }
 
+/// the scripted error for code `a`: codes 1..7 are `io::Error::from(kind)`; codes 101..107 deliver the SAME kind in another
+/// representation (a raw OS error where Linux has an errno of that kind, a custom error otherwise)
+pub fn make_err(a: u64) -> std::io::Error {
+    if a < 100 {
+        return std::io::Error::from(kind_of(a));
+    }
+    match a % 100 {
+        3 => std::io::Error::from_raw_os_error(4),    // EINTR
+        4 => std::io::Error::from_raw_os_error(11),   // EAGAIN
+        5 => std::io::Error::from_raw_os_error(110),  // ETIMEDOUT
+        6 => std::io::Error::from_raw_os_error(104),  // ECONNRESET
+        k => std::io::Error::new(kind_of(k), "scripted"),
+    }
+}
+
 pub fn kind_of(code: u64) -> ErrorKind {
-    match code {
+    match code % 100 {
         1 => ErrorKind::InvalidData,
         2 => ErrorKind::UnexpectedEof,
         3 => ErrorKind::Interrupted,
@@ -128,7 +143,7 @@ impl Read for ScriptReader {
                 self.pos += n;
                 Ok(n)
             }
-            1 => Err(std::io::Error::from(kind_of(a))),
+            1 => Err(make_err(a)),
             2 => panic!("scripted reader panic"),
             3 => Err(std::io::Error::from(ErrorKind::WouldBlock)),
             _ => Ok(a as usize),
@@ -153,7 +168,7 @@ impl Write for ScriptWriter {
         enc_bytes(&mut self.log, data);
         match tag {
             0 => Ok((a.min(data.len() as u64)) as usize),
-            1 => Err(std::io::Error::from(kind_of(a))),
+            1 => Err(make_err(a)),
             2 => panic!("scripted writer panic"),
             _ => Err(std::io::Error::from(ErrorKind::WouldBlock)),
         }
@@ -163,7 +178,7 @@ impl Write for ScriptWriter {
         self.log.push(2);
         match tag {
             0 => Ok(()),
-            1 => Err(std::io::Error::from(kind_of(a))),
+            1 => Err(make_err(a)),
             2 => panic!("scripted writer panic"),
             _ => Err(std::io::Error::from(ErrorKind::WouldBlock)),
         }
